@@ -283,7 +283,7 @@ private def root_envEx (ret : MapSlab (MElemF (MElems 0)) Unit Unit) : Env (MEle
   Storable_ByteSize := fun _ => 0
   ValueComparator := fun c _ _ => (false, none, c)
   Value_Storable := fun _ c _ _ => (none, none, c)
-  element_Size := fun el => u32 (el.size (MDataSlab.eops 0))
+  element_Size := fun msl_el => u32 (msl_el.size (MDataSlab.eops 0))
   maxInlineMapValueSize := fun x => x
   minThreshold := u32 (minThr 1024)
   newSingleElement := fun c _ _ _ => ({}, none, c)
